@@ -194,6 +194,17 @@ impl Oplog {
                         entries.pop();
                     }
                     outcome.entries = Some(entries.into_boxed_slice());
+
+                    // Whatever lies behind the accepted entries (entries of an older header,
+                    // a torn write) must not stay in the file: a later header write flips the
+                    // header bit again and would make such leftovers look current. As in
+                    // Javascript, truncate the file to the end of the accepted entries.
+                    let valid_length = OplogSlot::Entries as u64 + outcome.oplog.entries_byte_length;
+                    if (existing.len() as u64) > valid_length {
+                        let mut infos = std::mem::take(&mut outcome.infos_to_flush).into_vec();
+                        infos.push(StoreInfo::new_truncate(Store::Oplog, valid_length));
+                        outcome.infos_to_flush = infos.into_boxed_slice();
+                    }
                 }
                 Ok(Either::Right(outcome))
             }
